@@ -1,0 +1,75 @@
+//go:build verif
+
+// Contracts for the cell-union algebra (property C11): membership tests against the leaf ranges of a
+// sorted, disjoint union, sibling detection, range tiling, normalization structure.
+// Comment-only; build tag verif. Uses the spec functions of vc_cellid_verif.go.
+
+package s2
+
+//@ property C11
+
+// sorted, pairwise disjoint, valid: the representation invariant of a normalized union
+//@ spec func vcSortedDisjoint(cu CellUnion) bool =
+//@    (forall k int :: 0 <= k && k < len(cu) ==> vcValid(cu[k])) &&
+//@    (forall a int :: forall b int :: 0 <= a && a < b && b < len(cu) ==> vcHi(cu[a]) < vcLo(cu[b]))
+
+// areSiblings is exact: four distinct valid cells are siblings iff they are the four children of one cell
+//@ func areSiblings(a, b, c, d CellID) bool
+//@   requires vcValid(a) && vcValid(b) && vcValid(c) && vcValid(d) && a != b && a != c && a != d && b != c && b != d && c != d
+//@   ensures [sound] result ==> !d.isFace() && a.Level() == d.Level() && b.Level() == d.Level() && c.Level() == d.Level() &&
+//@       a.immediateParent() == d.immediateParent() && b.immediateParent() == d.immediateParent() && c.immediateParent() == d.immediateParent()
+//@   ensures [complete] !d.isFace() && !a.isFace() && !b.isFace() && !c.isFace() && a.Level() == d.Level() && b.Level() == d.Level() && c.Level() == d.Level() &&
+//@       a.immediateParent() == d.immediateParent() && b.immediateParent() == d.immediateParent() && c.immediateParent() == d.immediateParent() ==> result
+
+//@ func (cu *CellUnion) lowerBound(begin, end int, id CellID) int
+//@   requires cu != nil && 0 <= begin && begin <= end && end <= len(*cu)
+//@   ensures [range] begin <= result && result <= end
+//@   ensures [below] forall k int :: begin <= k && k < result ==> (*cu)[k] < id
+//@   ensures [at] result < end ==> (*cu)[result] >= id
+//@   loop 1 (i int): invariant begin <= i && i <= end && (forall k int :: begin <= k && k < i ==> (*cu)[k] < id)
+
+//@ func (cu *CellUnion) ContainsCellID(id CellID) bool
+//@   requires cu != nil && vcSortedDisjoint(*cu) && vcValid(id)
+//@   ensures [sound] result ==> exists k int :: 0 <= k && k < len(*cu) && (*cu)[k].Contains(id)
+//@   ensures [complete] forall k int :: 0 <= k && k < len(*cu) && (*cu)[k].Contains(id) ==> result
+
+//@ func (cu *CellUnion) IntersectsCellID(id CellID) bool
+//@   requires cu != nil && vcSortedDisjoint(*cu) && vcValid(id)
+//@   ensures [sound] result ==> exists k int :: 0 <= k && k < len(*cu) && (*cu)[k].Intersects(id)
+//@   ensures [complete] forall k int :: 0 <= k && k < len(*cu) && (*cu)[k].Intersects(id) ==> result
+
+//@ func (cu *CellUnion) Contains(o CellUnion) bool
+//@   requires cu != nil && vcSortedDisjoint(*cu) && (forall k int :: 0 <= k && k < len(o) ==> vcValid(o[k]))
+//@   ensures [all] result ==> (forall j int :: 0 <= j && j < len(o) ==> exists k int :: 0 <= k && k < len(*cu) && (*cu)[k].Contains(o[j]))
+//@   ensures [some-missing] !result ==> (exists j int :: 0 <= j && j < len(o) && (forall k int :: 0 <= k && k < len(*cu) ==> !(*cu)[k].Contains(o[j])))
+//@   loop 1 (rangeindex int): invariant forall j int :: 0 <= j && j <= rangeindex ==> exists k int :: 0 <= k && k < len(*cu) && (*cu)[k].Contains(o[j])
+
+//@ func (cu *CellUnion) Intersects(o CellUnion) bool
+//@   requires cu != nil && vcSortedDisjoint(o) && (forall k int :: 0 <= k && k < len(*cu) ==> vcValid((*cu)[k]))
+//@   ensures [any] result ==> (exists j int :: exists k int :: 0 <= j && j < len(*cu) && 0 <= k && k < len(o) && o[k].Intersects((*cu)[j]))
+//@   ensures [none!] !result ==> (forall j int :: forall k int :: 0 <= j && j < len(*cu) && 0 <= k && k < len(o) ==> !o[k].Intersects((*cu)[j]))
+//@   loop 1 (rangeindex int): invariant forall j int :: forall k int :: 0 <= j && j <= rangeindex && 0 <= k && k < len(o) ==> !o[k].Intersects((*cu)[j])
+
+//@ func (cu *CellUnion) IsValid() bool
+//@   requires cu != nil
+//@   ensures [sound] result ==> (forall k int :: 0 <= k && k < len(*cu) ==> vcValid((*cu)[k])) && (forall k int :: 0 < k && k < len(*cu) ==> vcHi((*cu)[k-1]) < vcLo((*cu)[k]))
+//@   loop 1 (rangeindex int): invariant (forall k int :: 0 <= k && k <= rangeindex ==> vcValid((*cu)[k])) && (forall k int :: 0 < k && k <= rangeindex ==> vcHi((*cu)[k-1]) < vcLo((*cu)[k]))
+
+//@ func (cu *CellUnion) LeafCellsCovered() int64
+//@   requires cu != nil && vcSortedDisjoint(*cu)
+//@   ensures result >= 0
+//@   loop 1 (rangeindex int, numLeaves int64): invariant 0 <= numLeaves && (rangeindex >= 0 ==> uint64(numLeaves) <= vcHi((*cu)[rangeindex])/2 + 1) && (rangeindex < 0 ==> numLeaves == 0)
+
+// CellUnionFromRange tiles [begin, end) exactly, in order, with valid cells
+//@ func CellUnionFromRange(begin, end CellID) CellUnion
+//@   requires vcValid(begin) && begin.IsLeaf() && (vcValid(end) || vcIsEnd(end)) && end.IsLeaf() && begin <= end
+//@   ensures [valid] forall k int :: 0 <= k && k < len(result) ==> vcValid(result[k])
+//@   ensures [first] len(result) > 0 ==> vcLo(result[0]) == uint64(begin)
+//@   ensures [last] len(result) > 0 ==> vcHi(result[len(result)-1]) + 2 == uint64(end)
+//@   ensures [contiguous!] forall k int :: 0 < k && k < len(result) ==> vcHi(result[k-1]) + 2 == vcLo(result[k])
+//@   ensures [empty!] len(result) == 0 <==> begin == end
+//@   loop 1 (id CellID, cu CellUnion): invariant [id] id == end || (vcValid(id) && vcHi(id) < uint64(end))
+//@   loop 1: invariant [tiled-valid] forall k int :: 0 <= k && k < len(cu) ==> vcValid(cu[k])
+//@   loop 1: invariant [tiled-contig!] forall k int :: 0 < k && k < len(cu) ==> vcHi(cu[k-1]) + 2 == vcLo(cu[k])
+//@   loop 1: invariant [ends] (len(cu) > 0 ==> vcLo(cu[0]) == uint64(begin) && vcHi(cu[len(cu)-1]) + 2 == vcLo(id)) && (len(cu) == 0 ==> vcLo(id) == uint64(begin) || (id == end && begin == end))
+//@   loop 1: decreases! int((uint64(end) - vcLo(id)) >> 1)
